@@ -497,7 +497,7 @@ func (p c09) Exec(c *fw.Ctx, u *fw.Unit) {
 				continue
 			}
 			ch := fmt.Sprintf("[%dx%d exact]", k*w0, hh)
-			for _, w2 := range []int{k*w0 - 1, k * w0, k*w0 + 1, k*w0*3/2, (k + 1) * w0, 2*k*w0 - 1, 2 * k * w0, 2*k*w0 + k, w0} {
+			for _, w2 := range []int{k*w0 - 1, k * w0, k*w0 + 1, k * w0 * 3 / 2, (k + 1) * w0, 2*k*w0 - 1, 2 * k * w0, 2*k*w0 + k, w0} {
 				h2 := hh * w2 / (k * w0)
 				if dims == 1 || h2 < 1 {
 					h2 = 1 + r.Intn(3)
